@@ -188,6 +188,7 @@ class BinaryData:
     def insert_new_segment(self, fjm_writer: Writer, first_address: int, wflip_first_address: int) -> None:
         self.close_and_add_segment(fjm_writer)
 
+        assert_address_in_memory(self.memory_width, first_address)
         self.first_address = first_address
         self.next_wflip_address = wflip_first_address
         self.current_address = self.first_address
